@@ -99,6 +99,76 @@ const infCap = math.MaxInt32
 type Policy struct {
 	Cap      string // "exact": capacity always equals length (append never aliases); "spare": creation cap n+2, growth 2n+2; "inf": unlimited capacity (append always in place)
 	MapOrder string // order in which maps are iterated / rendered: "" or "asc", "desc", "hash" (by a hash of the key), "rot" (ascending, rotated by half)
+	// Ch, when set, decides the order of every map traversal (of two or more
+	// keys) separately: refx.AllOutcomes enumerates all decisions.
+	Ch *Chooser
+	// Orders, when set (ref.Run points it at Stats.MapOrders), counts the
+	// traversals (iteration or rendering) of maps with two or more keys
+	Orders *int
+}
+
+// Chooser replays a prefix of decisions and takes option 0 afterwards; Trace
+// records every decision point met, so that the caller can enumerate the tree.
+type Chooser struct {
+	Prefix []int
+	Trace  []Choice
+}
+
+// Choice is one decision point: Pick out of N options.
+type Choice struct{ N, Pick int }
+
+func (c *Chooser) next(n int) int {
+	pick := 0
+	if i := len(c.Trace); i < len(c.Prefix) && c.Prefix[i] < n {
+		pick = c.Prefix[i]
+	}
+	c.Trace = append(c.Trace, Choice{N: n, Pick: pick})
+	return pick
+}
+
+// orderOptions is the number of orders offered for a map of n keys: every
+// permutation up to 4 keys, beyond that every rotation of the ascending and of
+// the descending order (so that every key comes first and last at least once).
+func orderOptions(n int) int {
+	switch {
+	case n < 2:
+		return 1
+	case n <= 4:
+		f := 1
+		for i := 2; i <= n; i++ {
+			f *= i
+		}
+		return f
+	}
+	return 2 * n
+}
+
+// permute returns the k-th order of the (sorted) keys, see orderOptions.
+func permute(keys []string, k int) []string {
+	n := len(keys)
+	if n <= 4 {
+		pool := append([]string{}, keys...)
+		out := make([]string, 0, n)
+		for i := n; i >= 1; i-- {
+			f := 1
+			for j := 2; j < i; j++ {
+				f *= j
+			}
+			idx := k / f
+			k %= f
+			out = append(out, pool[idx])
+			pool = append(pool[:idx], pool[idx+1:]...)
+		}
+		return out
+	}
+	base := append([]string{}, keys...)
+	if k >= n {
+		for i, j := 0, n-1; i < j; i, j = i+1, j-1 {
+			base[i], base[j] = base[j], base[i]
+		}
+		k -= n
+	}
+	return append(append([]string{}, base[k:]...), base[:k]...)
 }
 
 func (p Policy) String() string {
@@ -186,6 +256,15 @@ func (p Policy) SortedKeys(m *MapV) []string {
 		keys = append(keys, k)
 	}
 	sort.Strings(keys)
+	if p.Orders != nil && len(keys) >= 2 {
+		*p.Orders++
+	}
+	if p.Ch != nil {
+		if len(keys) < 2 {
+			return keys
+		}
+		return permute(keys, p.Ch.next(orderOptions(len(keys))))
+	}
 	switch p.MapOrder {
 	case "desc":
 		for i, j := 0, len(keys)-1; i < j; i, j = i+1, j-1 {
